@@ -689,6 +689,69 @@ func (d *c20Driver) wantFollow(ep *hEndpoint, cs *hCase, seed int64, variant int
 	return uint64(seed)%3 == 0
 }
 
+// firstRefusal is true the first time a key is seen.
+func (d *c20Driver) firstRefusal(key string) bool {
+	d.mu.Lock()
+	defer d.mu.Unlock()
+	if d.refusedSeen == nil {
+		d.refusedSeen = map[string]bool{}
+	}
+	if d.refusedSeen[key] {
+		return false
+	}
+	d.refusedSeen[key] = true
+	return true
+}
+
+// stillServed sends the valid request of the row right after a refused hostile one.  A departure (no
+// answer, death, server error, wedged work ...) is reproduced on a fresh node by sending the same hostile
+// request and then the valid one again; it is reported against the hostile case.
+func (d *c20Driver) stillServed(w *c20World, ep *hEndpoint, impl *c20EP, cs *hCase, in c20Inst, seed int64, variant int) c20Obs {
+	ctl, _ := c20Instantiate(ep, impl, nil, w, rand.New(rand.NewSource(seed)), 1)
+	w.timeout = 30 * time.Second
+	o := d.runCase(w, ep, nil, ctl.Req, ep.MayChange, false)
+	w.timeout = 90 * time.Second
+	atomic.AddInt64(&d.stillServedN, 1)
+	kinds := o.kinds(nil)
+	if len(kinds) == 0 {
+		return o
+	}
+	gkey := ep.Name + "|" + cs.Cls + "|then-valid-request|" + strings.Join(kinds, "+")
+	d.mu.Lock()
+	if g, ok := d.groups[gkey]; ok {
+		g.SameGroup++
+		d.mu.Unlock()
+		return o
+	}
+	rp := d.replayOf(ep, cs, in, seed, o, kinds)
+	rp.Mutation += fmt.Sprintf("; refused as expected, but the valid request of the row sent right after it (%s %s) departed: %v", ctl.Req.Method, ctl.Req.URL, kinds)
+	d.groups[gkey] = rp
+	d.mu.Unlock()
+	w2 := newC20WorldKind(d.c, d.cfg, ep.world())
+	w2.timeout = 30 * time.Second
+	var o2 c20Obs
+	if in2, ok := c20Instantiate(ep, impl, cs, w2, rand.New(rand.NewSource(seed)), variant); ok {
+		c20RunOpt(w2, in2.Req, cs.MayChange, false)
+		if w2.n.Alive() {
+			ctl2, _ := c20Instantiate(ep, impl, nil, w2, rand.New(rand.NewSource(seed)), 1)
+			o2 = d.runCase(w2, ep, nil, ctl2.Req, ep.MayChange, false)
+		}
+	}
+	d.c.DropNode(w2.n)
+	k2 := o2.kinds(nil)
+	rp.Reproduced = &o2
+	if len(k2) == 0 {
+		d.mu.Lock()
+		delete(d.groups, gkey)
+		d.unrepro = append(d.unrepro, fmt.Sprintf("%s %s %s then the valid request: first %v, on a fresh node nothing", ep.Name, cs.Cls, in.Note, kinds))
+		d.mu.Unlock()
+		return o
+	}
+	rp.Kinds = k2
+	d.run.Violation("c20", rp)
+	return o
+}
+
 // ---- findings ----------------------------------------------------------------------------
 
 type c20Replay struct {
@@ -727,6 +790,8 @@ type c20Driver struct {
 	cfg    node.Config
 	mu     sync.Mutex
 	groups map[string]*c20Replay // group key -> first confirmed replay
+	refusedSeen  map[string]bool
+	stillServedN int64
 	unrepro []string
 	sent, skipped, notSent, rejected, accepted int64
 	byKind map[string]int
@@ -1150,7 +1215,18 @@ func checkC20(c *Ctx) int {
 				if os.Getenv("VERIF_C20_MEM") != "" && o.HeapSysMB > 700 {
 					fmt.Printf("MEM %s %s %s: heap inuse %d MB sys %d MB (%s)\n", ep.Name, cs.Cls, in.FieldName, o.HeapInuseMB, o.HeapSysMB, in.Note)
 				}
+				if os.Getenv("VERIF_C20_TRACE") != "" {
+					fmt.Printf("TRACE %s %s %s %s -> %d lazy=%v %s\n", ep.Name, cs.Part, cs.Cls, in.FieldName, o.Status, lazy, truncStr(in.Note, 80))
+				}
 				bad := d.handle(ep, impl, cs, in, seed, v, o)
+				// "later requests are still served": after the first refused hostile request of each structural
+				// part of a mutating row the valid request of the row must still be answered
+				if !bad && !lazy && ep.Flags.has("mut") && !ep.Flags.has("noctl") && !ep.Flags.has("persist") && o.Status >= 400 && o.Status < 500 && w.n.Alive() && d.firstRefusal(ep.Name+"|"+cs.Part+"|"+cs.Cls+map[bool]string{true: "|" + in.FieldName, false: ""}[c.thorough()]) {
+					// (sent to the same version, before the pending refusals are compared: its own comparison covers them)
+					o3 := d.stillServed(w, ep, impl, cs, in, seed, v)
+					window = nil
+					after(o3)
+				}
 				if !bad && (ii+ci+v)%97 == 0 {
 					run.Sample(d.replayOf(ep, cs, in, seed, o, nil))
 				}
@@ -1178,6 +1254,7 @@ func checkC20(c *Ctx) int {
 		more += g.SameGroup
 	}
 	sort.Strings(groups)
+	run.Set("valid_requests_after_refusals", atomic.LoadInt64(&d.stillServedN))
 	run.Set("states", tr.Distinct)
 	run.Set("transitions", tr.Generated)
 	run.Set("traces_validated_against_impl", d.sent)
